@@ -797,7 +797,24 @@ func (m *Machine) stringIntercept(fn *ssa.Function, name string, args []Val) han
 			return strEq(strSlice(s, 0, p.Len()), p)
 		}
 	case "strings.Title":
-		return func() Val { return m.titleSym(args[0].(*StrV)) }
+		return func() Val {
+			if s := args[0].(*StrV); s.P != nil {
+				return m.mapPick(s, strings.Title)
+			}
+			return m.titleSym(args[0].(*StrV))
+		}
+	case "strings.ToUpper":
+		if s := args[0].(*StrV); s.P != nil {
+			return func() Val { return m.mapPick(s, strings.ToUpper) }
+		}
+	case "strings.ToLower":
+		if s := args[0].(*StrV); s.P != nil {
+			return func() Val { return m.mapPick(s, strings.ToLower) }
+		}
+	case "strings.ToTitle":
+		if s := args[0].(*StrV); s.P != nil {
+			return func() Val { return m.mapPick(s, strings.ToTitle) }
+		}
 	}
 	return nil
 }
